@@ -19,8 +19,14 @@ def wf : Layer → Bool
   | .tcp _ _ _ _ _ _ _ opts => opts.all (fun (t, d) => if t ≤ 1 then d.isEmpty else (!d.isEmpty || t == 4))
   | .sll _ _ _ addr _ => addr.length == 8
   | .pppoe _ _ _ tags => decide ((tags.map (fun e => e.2.length + 4)).sum < 65536)
-  | .llc .. | .radiotap .. | .eapol .. | .opaque .. => false
+  | .opaque .. => false
   | _ => true
+
+/-- the FLAGS field of the default `RadioTap` object decides the trailer: 4 octets of FCS iff the FCS flag is on -/
+theorem radiotapTrailer_default (fcs : Bool) : radiotapTrailer (radiotapPayload fcs) = if fcs then 4 else 0 := by
+  cases fcs <;> decide
+
+theorem length_radiotapPayload (fcs : Bool) : (radiotapPayload fcs).length = 22 := rfl
 
 @[simp] theorem length_zeros (n : Nat) : (zeros n).length = n := by simp [zeros]
 @[simp] theorem length_w16 (v : Nat) : (w16 v).length = 2 := rfl
@@ -227,9 +233,11 @@ theorem write_length (l : Layer) (rest : List Layer) (inner : Bytes) (parent : O
     simp [write, headerSize, trailerSize, hwf]; omega
   | ah spi seq icv nh => simp [write, headerSize, trailerSize]; omega
   | esp spi seq => simp [write, headerSize, trailerSize]; omega
-  | llc _ _ => simp [wf] at hwf
-  | radiotap _ => simp [wf] at hwf
-  | eapol _ _ => simp [wf] at hwf
+  | llc _ _ => simp [write, headerSize, trailerSize]; omega
+  | radiotap fcs =>
+    simp only [write, headerSize, trailerSize, radiotapTrailer_default, length_radiotapPayload]
+    cases fcs <;> cases rest <;> simp [length_radiotapPayload] <;> omega
+  | eapol _ _ => simp [write, headerSize, trailerSize]; omega
   | «opaque» _ _ _ => simp [wf] at hwf
 
 /-- the model of `PDU::serialize` is size-exact: it writes `PDU::size()` octets -/
@@ -424,9 +432,20 @@ theorem write_frame (l : Layer) (rest : List Layer) (inner : Bytes) (parent : Op
     refine ⟨?H17, [], ?h1x17, ?h2x17⟩
     case h2x17 => simp only [write, List.append_nil]; rfl
     case h1x17 => simp [headerSize]
-  | llc _ _ => simp [wf] at hwf
-  | radiotap _ => simp [wf] at hwf
-  | eapol _ _ => simp [wf] at hwf
+  | llc _ _ =>
+    refine ⟨?H18, [], ?h1x18, ?h2x18⟩
+    case h2x18 => simp only [write, List.append_nil]; rfl
+    case h1x18 => simp [headerSize]
+  | radiotap fcs =>
+    simp only [write, headerSize]
+    generalize (trailerSize (Layer.radiotap fcs) _) = tr
+    by_cases h : tr > 0 ∧ (!rest.isEmpty) = true
+    · rw [if_pos h]; exact ⟨_, _, by simp [radiotapPayload], rfl⟩
+    · rw [if_neg h]; exact ⟨_, _, by simp [radiotapPayload], rfl⟩
+  | eapol _ _ =>
+    refine ⟨?H21, [], ?h1x21, ?h2x21⟩
+    case h2x21 => simp only [write, List.append_nil]; rfl
+    case h1x21 => simp [headerSize]; omega
   | «opaque» _ _ _ => simp [wf] at hwf
 
 /-- parent seen by the first layer of `tail` when `pre` is in front of it -/
